@@ -110,6 +110,53 @@ std::string run_tree(const Cmd& c){
             tree.applyToAllCells([&](long, auto&&, auto&& m, auto&& l){ if(m && m->get() != 0) nz++; if(l && l->get() != 0) nz++; });
             out += "nonzero=" + std::to_string(nz);
         }
+        else if(q == "cv"){
+            // C14: copy the bytes of every group's buffers elsewhere, view the copies through the raw-memory
+            // constructors, compare every accessor
+            long bad = 0, ngroups = 0;
+            for(long l = 0 ; l < tree.getHeight() ; ++l){
+                for(auto& g : tree.getCellGroupsAtLevel(l)){
+                    auto ps = g.getDataPtrsAndSizes();
+                    std::vector<std::vector<unsigned char>> copies;
+                    std::array<std::pair<unsigned char*, size_t>, 3> np;
+                    for(int k = 0 ; k < 3 ; ++k){ copies.emplace_back(ps[k].first, ps[k].first + ps[k].second); }
+                    for(int k = 0 ; k < 3 ; ++k){ np[k] = {copies[k].data(), copies[k].size()}; }
+                    typename Tree::CellGroupClass view(np);
+                    ngroups += 1;
+                    if(view.getNbCells() != g.getNbCells() || view.getStartingSpacialIndex() != g.getStartingSpacialIndex()
+                       || view.getEndingSpacialIndex() != g.getEndingSpacialIndex()) { bad += 1; continue; }
+                    for(long k = 0 ; k < g.getNbCells() ; ++k){
+                        if(view.getCellSpacialIndex(k) != g.getCellSpacialIndex(k) || view.getCellBoxCoord(k) != g.getCellBoxCoord(k)
+                           || view.getCellMultipole(k) != g.getCellMultipole(k) || view.getCellLocal(k) != g.getCellLocal(k)) bad += 1;
+                        if((unsigned char*)&view.getCellMultipole(k) - np[1].first != (unsigned char*)&g.getCellMultipole(k) - ps[1].first) bad += 1;
+                        if(view.getElementFromSpacialIndex(g.getCellSpacialIndex(k)) != g.getElementFromSpacialIndex(g.getCellSpacialIndex(k))) bad += 1;
+                    }
+                }
+            }
+            for(auto& g : tree.getParticleGroups()){
+                auto ps = g.getDataPtrsAndSizes();
+                std::vector<std::vector<unsigned char>> copies;
+                std::array<std::pair<unsigned char*, size_t>, 2> np;
+                for(int k = 0 ; k < 2 ; ++k){ copies.emplace_back(ps[k].first, ps[k].first + ps[k].second); }
+                for(int k = 0 ; k < 2 ; ++k){ np[k] = {copies[k].data(), copies[k].size()}; }
+                typename Tree::LeafGroupClass view(np);
+                ngroups += 1;
+                if(view.getNbLeaves() != g.getNbLeaves() || view.getNbParticles() != g.getNbParticles()){ bad += 1; continue; }
+                for(long k = 0 ; k < g.getNbLeaves() ; ++k){
+                    if(view.getLeafSpacialIndex(k) != g.getLeafSpacialIndex(k) || view.getNbParticlesInLeaf(k) != g.getNbParticlesInLeaf(k)
+                       || view.getLeafBoxCoord(k) != g.getLeafBoxCoord(k)) { bad += 1; continue; }
+                    auto d0 = g.getParticleData(k); auto d1 = view.getParticleData(k);
+                    auto r0 = g.getParticleRhs(k); auto r1 = view.getParticleRhs(k);
+                    for(long p = 0 ; p < g.getNbParticlesInLeaf(k) ; ++p){
+                        if(view.getParticleIndexes(k)[p] != g.getParticleIndexes(k)[p]) bad += 1;
+                        for(long v = 0 ; v < ND ; ++v) if(std::memcmp(&d0[v][p], &d1[v][p], sizeof(double)) != 0) bad += 1;
+                        for(long v = 0 ; v < 2 ; ++v) if(r0[v][p] != r1[v][p]) bad += 1;
+                    }
+                    for(long v = 0 ; v < ND ; ++v) if((unsigned char*)d1[v] - np[0].first != (unsigned char*)d0[v] - ps[0].first) bad += 1;
+                }
+            }
+            out += "groups=" + std::to_string(ngroups) + " bad=" + std::to_string(bad);
+        }
         else return out + "?query " + q;
     }
     return out;
